@@ -103,6 +103,9 @@ func (t *Tape) Byte() byte { return byte(t.Intn(256)) }
 // Named is a draw that a sweep can force from outside. n is the size of the
 // range; a forced value is reduced mod n.
 func (t *Tape) Named(name string, n int) int {
+	// A tape value is consumed whether or not the choice is forced, so that a
+	// forced run stays aligned with the unforced run it was derived from.
+	drawn := t.Intn(n)
 	if v, ok := t.Over[name]; ok {
 		if n <= 1 {
 			return 0
@@ -112,7 +115,7 @@ func (t *Tape) Named(name string, n int) int {
 		}
 		return v % n
 	}
-	return t.Intn(n)
+	return drawn
 }
 
 // HasOver reports whether a named override is present.
